@@ -150,6 +150,18 @@ def run_scope(acc: Acc, engine, oracle: Oracle, n: int, v: int, scope: str, comb
         fl.settings.decimals = d
         try:
             text = exporter.to_string_from_scope(engine, v, getattr(fl.FldExporter.ScopeOfValues, scope))
+            if v <= 6 and (headers, inputs, outputs) == (True, True, True):
+                import os
+                import pathlib
+                import tempfile
+                fd, tmp = tempfile.mkstemp(prefix="vmc-fld-")
+                os.close(fd)
+                try:
+                    exporter.to_file_from_scope(pathlib.Path(tmp), engine, v, getattr(fl.FldExporter.ScopeOfValues, scope))
+                    if pathlib.Path(tmp).read_text() != text:
+                        acc.violate("file-differs", {}, case, text[:80], pathlib.Path(tmp).read_text()[:80], f"{case}: to_file_from_scope writes a different dataset")
+                finally:
+                    os.unlink(tmp)
             if v <= 12 and exporter.to_string_from_scope(engine, v, getattr(fl.FldExporter.ScopeOfValues, scope)) != text:
                 acc.violate("not-repeatable", {}, case, text[:120], "differs", f"{case}: exporting twice gives different datasets")
         finally:
